@@ -385,3 +385,105 @@ class AdaptiveStepSize(_OneStep):
             from vt.e1.contract import valid
             yield 'guess', z3.And(zi(t.order) == d, valid(t), same_ints(t.row_dims, op.col_dims, d), FA(0, d, lambda j: lst_get(t.col_dims, j) == 1), boundary_one(t))
         return inv
+
+
+# ----------------------------------------------------------------------------------------------------------------------
+# Krylov method (C11): Lanczos basis kept in a list of tensor trains
+
+@register
+class Krylov(Contract):
+    name, func, file, cls = 'fn:krylov', 'krylov', FILE, None
+    props = ('C11',)
+    uses_heap = True
+    list_kinds = {'krylov_tensors': 'ttref'}
+    K1, K2 = 'i in range(1, dimension)', 'j in range(1, dimension)'
+    loop_ordinals = {0: K1, 1: K2}
+
+    def instances(self):
+        return [{'normalize': 0}, {'normalize': 1}, {'normalize': 2}]
+
+    def quick_instances(self):
+        return [{'normalize': 0}, {'normalize': 2}]
+
+    def defaults(self):
+        return {'threshold': SNum('thr', nonneg=z3.BoolVal(True)), 'max_rank': 50, 'normalize': 0}
+
+    def state_pred(self, ref, state):
+        return state_ok(ref, state.old['operator'])
+
+    def setup(self, ex, state, inst):
+        m0 = ex.ctx.mark0
+        op = mk_tt(state, 'operator', m0)
+        init = mk_tt(state, 'initial_value', m0, order=op.order)
+        mr = fresh('max_rank')      # a finite cap: the code computes 2 * max_rank
+        return {'operator': op, 'initial_value': init, 'dimension': fresh('dimension'), 'step_size': SNum('step_size'),
+                'threshold': SNum('threshold', nonneg=z3.BoolVal(True)), 'max_rank': mr, 'normalize': inst['normalize']}
+
+    def domain_extra(self, S):
+        mr = S.a.get('max_rank')
+        if isinstance(mr, (SMaxRank, SInf)):
+            raise Unsupported('krylov with a non-integer max_rank')
+        yield 'max_rank>=1', zi(mr) >= 1
+
+    def requires(self, S):
+        op, x = S.a['operator'], S.a['initial_value']
+        d = zi(op.order)
+        yield 'orders-equal', zi(x.order) == d
+        yield 'square-operator', square(op)
+        yield 'dims-match', z3.And(same_ints(x.row_dims, op.col_dims, d), FA(0, d, lambda j: lst_get(x.col_dims, j) == 1))
+        yield 'boundary-ranks-1', z3.And(boundary_one(op), boundary_one(x))
+        yield 'distinct-operands', op.ref != x.ref
+        # derived from the code: T[0, 0] is written before any check
+        yield 'dimension>=1', zi(S.a['dimension']) >= 1
+        jx = fresh('jx')
+        yield 'state-dimension>=2', z3.Exists([jx], z3.And(0 <= jx, jx < d, lst_get(x.row_dims, jx) >= 2))
+
+    def ensures(self, S, res):
+        from vt.e1.contract import valid
+        x0 = S.o['initial_value']
+        d = zi(x0.order)
+        yield 'returns-TT', isinstance(res, STT)
+        if isinstance(res, STT):
+            yield 'order-and-dims', z3.And(zi(res.order) == d, same_ints(res.row_dims, x0.row_dims, d), FA(0, d, lambda j: lst_get(res.col_dims, j) == 1))
+            yield 'boundary-ranks-1', boundary_one(res)
+            yield 'result-fresh', z3.And(meta_fresh(res, S.mark0), cores_fresh(res, S.mark0))
+
+    def canary(self, S, res):
+        return zi(res.order) == zi(S.o['initial_value'].order) + 1 if isinstance(res, STT) else None
+
+    def invariant(self, key, inst):
+        me = self
+
+        def vec_like(t, op):
+            from vt.e1.contract import valid
+            d = zi(op.order)
+            return z3.And(zi(t.order) == d, valid(t), same_ints(t.row_dims, op.row_dims, d), FA(0, d, lambda j: lst_get(t.col_dims, j) == 1), boundary_one(t))
+
+        def basis(V, n):
+            kt = V['krylov_tensors']
+            yield from trajectory(me, kt, n, V.old('initial_value'), V.mark0, V.state.mark)
+
+        def inv1(V, i, k):
+            op = V.old('operator')
+            yield from basis(V, zi(i))
+            w = V['w_tmp']
+            yield 'w_tmp', z3.And(vec_like(w, op), meta_fresh(w, V.mark0), cores_fresh(w, V.mark0))
+            T = V['T']
+            dim = zi(V.old('dimension'))
+            yield 'T', z3.And(T.shape[0] == dim, T.shape[1] == dim, T.buf >= V.mark0, T.cplx)
+            # the Lanczos matrix is allocated before any basis vector is produced: writing T cannot touch a stored vector
+            kt = V['krylov_tensors']
+            yield 'basis-allocated-after-T', FA(1, zi(i), lambda j: heap.BOT(heap.ref_at(kt, j)) > T.buf)
+
+        def inv2(V, j, k):
+            op = V.old('operator')
+            dim = zi(V.old('dimension'))
+            yield from basis(V, dim)
+            sol, kt = V['solution'], V['krylov_tensors']
+            yield 'solution', z3.And(vec_like(sol, op), meta_fresh(sol, V.mark0), cores_fresh(sol, V.mark0))
+            # the accumulated sum is younger than every basis vector: orthonormalising it in place cannot touch the basis
+            yield 'solution-younger-than-basis', FA(0, dim, lambda j: z3.And(*[x >= heap.TOP(heap.ref_at(kt, j)) for x in (sol.ref, sol.row_dims.ref, sol.col_dims.ref, sol.ranks.ref, sol.cores.ref)],
+                                                                                FA(0, zi(sol.order), lambda q: lst_get(sol.cores, q).buf >= heap.TOP(heap.ref_at(kt, j)))))
+            w = V['w_tmp']
+            yield 'coefficients', z3.And(w.shape[0] == dim)
+        return {self.K1: inv1, self.K2: inv2}.get(key)
